@@ -51,8 +51,8 @@ func genAgg(r *Rng, tier string) *Enc {
 	if r.Chance(30) {
 		n = r.Range(4, 12)
 	}
-	if r.Intn(80) == 0 {
-		n = Pick(r, []int{1025, 1027, 2050, 4099, 4096, 8192, 1024}) // at and around plausible chunking thresholds
+	if r.Intn(50) == 0 {
+		n = Pick(r, []int{1025, 1027, 2050, 4099, 4096, 4096, 8192, 8192, 1024}) // at and around plausible chunking thresholds
 	}
 	for _, name := range []string{"a", "b", "stat"}[:ncols] {
 		nan := r.Chance(30)
